@@ -16,11 +16,21 @@ type Value interface{}
 
 // StrVal: immutable string. B == nil means the concrete string S.
 type StrVal struct {
-	S string
-	B []*smt.Term
+	S   string
+	B   []*smt.Term
+	Abs *AbsStr // abstract text produced by an injective encoder that is not executed (base58, bech32)
+}
+
+// AbsStr: Ctor(Args...) with Args the encoder's input bytes; supports equality and the matching decoder.
+type AbsStr struct {
+	Ctor string
+	Args []*smt.Term
 }
 
 func (s StrVal) Len() int {
+	if s.Abs != nil {
+		panic(pathEnd{"unsupported", "length/content of an abstract " + s.Abs.Ctor + " string is not modelled"})
+	}
 	if s.B != nil {
 		return len(s.B)
 	}
@@ -28,6 +38,9 @@ func (s StrVal) Len() int {
 }
 
 func (s StrVal) Concrete() (string, bool) {
+	if s.Abs != nil {
+		return "", false
+	}
 	if s.B == nil {
 		return s.S, true
 	}
